@@ -4,7 +4,7 @@
 let i = int_of_n
 let err_tok (e : n) = match i e with
   | 1 -> "Universe_doesn_t_exist" | 2 -> "Device_doesn_t_exist" | 3 -> "Not_connected"
-  | 4 -> "Universe_not_found" | k -> "E" ^ string_of_int k
+  | 4 -> "Universe_not_found" | 5 -> "Plugin_not_loaded" | k -> "E" ^ string_of_int k
 let st_s e = match e with None -> ".ok" | Some x -> ".E:" ^ err_tok x
 let bytes_of_string (s : string) : n list = List.init (String.length s) (fun k -> n_of_int (Char.code s.[k]))
 let name_hex (u : n) (nm : n list option) = match nm with
@@ -33,8 +33,9 @@ let dump (ncl : int) (st : state) : string =
   List.iter (fun x ->
     let srcs = List.sort compare (List.map (fun (c, stale) -> string_of_int (i c) ^ (if stale then "!" else "")) x.u_srcs) in
     let snks = List.sort compare (List.map (fun c -> string_of_int (i c)) x.u_sinks) in
+    let nm = (match x.u_name with Some l -> l | None -> bytes_of_string ("Universe " ^ string_of_n x.u_id)) in
     Buffer.add_string b (Printf.sprintf "[%s,%s,%s,%s,%d,s%s,k%s,%s]" (string_of_n x.u_id) (bool01 x.u_htp)
-      (name_hex x.u_id x.u_name) (dhash x.u_buf) (i x.u_aprio) (String.concat "+" srcs) (String.concat "+" snks)
+      (dhash nm) (dhash x.u_buf) (i x.u_aprio) (String.concat "+" srcs) (String.concat "+" snks)
       (if List.exists (fun g -> g = x.u_id) sv.sv_gc then "g" else ""))) us;
   Buffer.add_string b "C";
   for c = 0 to ncl - 1 do
@@ -66,7 +67,8 @@ let parse_op (ncl : int) (s : string) : op option =
   | "M" -> Some (OMode (c (), u (), f.(3) = "1"))
   | "N" -> Some (OName (c (), u (), bytes_of_hex f.(3)))
   | "I" -> Some (OInfo (c (), u ()))
-  | "P" -> Some (OPatch (c (), u ()))
+  | "P" -> Some (OOpq (c (), n_of_int 0, u ()))
+  | "X" -> Some (OOpq (c (), n_of_string f.(2), n_of_string f.(3)))
   | "D" -> Some (ODisc (c ()))
   | "K" -> Some (OTick (n_of_string f.(1)))
   | "H" -> Some OHK
